@@ -247,6 +247,8 @@ pub async fn server_pipeline(app: Rc<App>, cfg: &Cfg3, sinks: Rc<RefCell<Vec<v3:
         let sinks = sinks.clone();
         async move {
             app.push(Ev::Handshake);
+            // a slow handshake service (gate closed by the check)
+            app.wait(G_HS, 0).await;
             match hs {
                 Hs3::Accept { idle_timeout, max_send, session_present } => {
                     sinks.borrow_mut().push(h.sink());
